@@ -110,6 +110,7 @@ def opOfJson (j : Json) : Except String Op := do
   | "add_mets" => pure (.addMets (← s "r") (← pairsOf (← j.getObjVal? "mets")) (← (← j.getObjVal? "combine").getBool?) false)
   | "sub_mets" => pure (.addMets (← s "r") (← pairsOf (← j.getObjVal? "mets")) (← (← j.getObjVal? "combine").getBool?) true)
   | "rm_rxn" => pure (.removeRxn (← s "r"))
+  | "add_rxn" => pure (.addRxn (← s "r") (← parseEB (← s "lb")) (← parseEB (← s "ub")) (← pairsOf (← j.getObjVal? "st")))
   | "enter" => pure .enter
   | "exit" => pure .exit
   | _ => throw s!"unmodelled op {name}"
